@@ -1,4 +1,4 @@
-import WacProofs.Lemmas.ElabPkg
+import WacProofs.Lemmas.ElabPkg3
 /-
   C05 — WIT declarations in WAC mean what WIT means: `elab_denotes`, fragment by fragment.
 
@@ -66,6 +66,39 @@ theorem elab_denotes_values_funcs_rf (p : Pkg) (T : Types) (env : Env)
   have := hall ie hie
   rw [renT_resourceFree _ hrf] at this
   exact ⟨this, by rw [this]; rfl⟩
+
+/-! ### interfaces with resources and `use` -/
+
+/-- **elab_denotes** (packages without worlds; interfaces with *all* kinds of items: `use` of
+earlier interfaces of the package with renames, value-type declarations, `resource` declarations
+with constructors / methods / statics, aliases of resources, functions).  For every declared
+interface, in order, the interface the resolver allocates unfolds — default fuel — to the instance
+type the WIT specification denotes, up to the injective renaming `ρ` of resource leaves
+(`Res.idx` of the specification = the number of the declaration, ↦ the root resource the resolver
+allocated for it): the same export names in declaration order (`[constructor]r`, `[method]r.m`
+with `self: borrow<r>`, `[static]r.m` included), the same types, and two leaves are the same
+resource in the arena exactly when they are the same resource in the specification — in
+particular a `use`d or aliased resource *is* the resource it names.
+Hypotheses: the keys of `env.ifaces` (local names and full ids) are pairwise distinct, and so are
+the export names of every interface (both hold of any WIT-valid package). -/
+theorem elab_denotes_interfaces_partial (p : Pkg) (T : Types) (env : Env)
+    (hw : p.worlds = []) (h : elabPkg p = .ok T) (hd : denotePkg [] 0 p = some env)
+    (hkeys : (p.ifaces.flatMap (fun ni => [ni.1, p.idOf ni.1])).Nodup)
+    (hnd : ∀ nx ∈ env.ifaces, (nx.2.map (·.1)).Nodup) :
+    ∃ (ρ : Nat → Res) (res : List (Nat × List (Str × Tree))),
+      (∀ a b, (ρ a).idx = (ρ b).idx → a = b) ∧ res.length = p.ifaces.length ∧
+      env.ifaces = (List.zip p.ifaces res).flatMap (fun x => [(x.1.1, x.2.2), (p.idOf x.1.1, x.2.2)]) ∧
+      ∀ ie ∈ res, T.unfold (.instance ie.1) = some (renT ρ (.instance (Forest.ofList ie.2))) := by
+  obtain ⟨st, hst, rfl⟩ := elabPkg_ifaces p hw T h
+  have hden := denotePkg_ifaces p hw env hd
+  obtain ⟨_, _, newR, res, _, hp, hr, henv, kk⟩ := elabIfacesAll_ok p p.ifaces _ _ _ _ hst hden
+  refine ⟨rhoE st.types newR, res, rhoE_inj st.types newR hp (fun x hx => (hr x hx).2), ?_, by simpa using henv, ?_⟩
+  · obtain ⟨_, hall⟩ := kk (rhoE st.types newR) [] rfl (consE_rhoE st.types newR)
+      (fun path i hpi => by simp [alGet] at hpi) (by simpa using hkeys) hnd
+    exact (All2_length hall).symm
+  · obtain ⟨_, hall⟩ := kk (rhoE st.types newR) [] rfl (consE_rhoE st.types newR)
+      (fun path i hpi => by simp [alGet] at hpi) (by simpa using hkeys) hnd
+    exact All2_right (fun _ ie hk => hk st.types _ (Ext.refl _ _ _) (by rw [Types.fuel_eq]; unfold kb vb; omega)) hall
 
 /-- the package
 ```
@@ -144,5 +177,57 @@ example : (match denotePkg [] 0 exP with
       exT.unfold (.instance 0) == (alGet env.ifaces "a".toList).map (fun ex => .instance (Forest.ofList ex)) &&
       exT.unfold (.instance 1) == (alGet env.ifaces "b".toList).map (fun ex => .instance (Forest.ofList ex))
     | none => false) = true := by decide +kernel
+
+/-- the package
+```
+package t:q;
+interface a { resource r { constructor(); m: func(); s: static func(); }  type h = r; }
+interface b { use a.{r as q, h};  type k = q;  f: func(); }
+```
+(no type expression is elaborated, so the kernel can evaluate `elabPkg`: `AstResolver::ty` is
+compiled by well-founded recursion) -/
+def exQ : Pkg :=
+  { name := "t:q".toList,
+    ifaces :=
+      [ ("a".toList,
+          [ .resource "r".toList
+              [ .ctor [], .method "m".toList false { params := [], result := none },
+                .method "s".toList true { params := [], result := none } ],
+            .alias "h".toList (.id "r".toList) ]),
+        ("b".toList,
+          [ .use "a".toList [("r".toList, some "q".toList), ("h".toList, none)],
+            .alias "k".toList (.id "q".toList),
+            .func "f".toList { params := [], result := none } ]) ] }
+
+/-- non-vacuity of `elab_denotes_interfaces_partial`: `exQ` is elaborated and denoted, keys and
+export names are distinct; interface `a` exports `r`, `[constructor]r`, `[method]r.m`,
+`[static]r.s`, `h`; the arena has one root resource and three aliases of it (`h`, and in `b`: `k`;
+`q` and `h` are the *same* items as in `a`) -/
+example : (match elabPkg exQ, denotePkg [] 0 exQ with
+    | .ok T, some env =>
+      exQ.worlds.isEmpty &&
+      decide (exQ.ifaces.flatMap (fun ni => [ni.1, exQ.idOf ni.1])).Nodup &&
+      env.ifaces.all (fun nx => decide (nx.2.map (·.1)).Nodup) &&
+      (alGet env.ifaces "a".toList).map (fun ex => ex.map (·.1)) ==
+        some ["r".toList, "[constructor]r".toList, "[method]r.m".toList, "[static]r.s".toList, "h".toList] &&
+      (alGet env.ifaces "b".toList).map (fun ex => ex.map (·.1)) ==
+        some ["q".toList, "h".toList, "k".toList, "f".toList] &&
+      T.resources.map (·.alias.map (·.source)) == [none, some 0, some 0] &&
+      (T.interfaces.map (·.exports.map (·.2)))[1]? ==
+        some [.type (.resource 0), .type (.resource 1), .type (.resource 2), .func 3]
+    | _, _ => false) = true := by decide +kernel
+
+/-- the conclusion on `exQ`, evaluated: every resource leaf of interface `b` is the one root
+resource (index 0), as in the specification where all of them are resource number 0 -/
+example : (match elabPkg exQ, denotePkg [] 0 exQ with
+    | .ok T, some env =>
+      (match T.unfold (.instance 1), alGet env.ifaces "b".toList with
+        | some (.instance f), some ex =>
+          f.toList.map (fun nt => match nt.2 with | .type (.resource r) => some r.idx | _ => none) ==
+            [some 0, some 0, some 0, none] &&
+          ex.map (fun nt => match nt.2 with | .type (.resource r) => some r.idx | _ => none) ==
+            [some 0, some 0, some 0, none]
+        | _, _ => false)
+    | _, _ => false) = true := by decide +kernel
 
 end Wac.Props.C05
